@@ -76,6 +76,10 @@ extension_item g_it0, g_it1, g_it2, g_it3;                       /* POOL == 4: i
 struct node g_n0, g_n1, g_n2, g_n3, g_n4, g_n5, g_n6;            /* NN <= 7 */
 uintptr_t g_eb_base;          /* address of g_eb[0]; allocate_block rounds it up to a multiple of sizeof(extension_bucket) */
 bucket_t* g_B;                /* the bucket under test (= bucket hash(key) & mask) */
+/* the block do_grow allocates: twice the buckets, its own extension pool (all free) */
+block_t g_blk2; bucket_t g_bk2[2 * NB]; extension_bucket g_eb2[XV_NEB]; extension_item g_jt0, g_jt1, g_jt2, g_jt3;
+#define POOL2_ITEM_C(p) ((p) == 0 ? &g_jt0 : (p) == 1 ? &g_jt1 : (p) == 2 ? &g_jt2 : &g_jt3)
+static int pool2_index(const extension_item* x) { for (int p = 0; p < POOL; ++p) if (x == POOL2_ITEM_C(p)) return p; return POOL; }
 /* pointers are always selected among concrete addresses (cheap for cbmc), never computed from a symbolic index */
 #define POOL_ITEM_C(p) ((p) == 0 ? &g_it0 : (p) == 1 ? &g_it1 : (p) == 2 ? &g_it2 : &g_it3)        /* p: constant */
 #define NODE_C(i) ((i) == 0 ? &g_n0 : (i) == 1 ? &g_n1 : (i) == 2 ? &g_n2 : (i) == 3 ? &g_n3 : (i) == 4 ? &g_n4 : (i) == 5 ? &g_n5 : &g_n6)
@@ -162,7 +166,7 @@ static struct n_accessor nk_acc_make(n_vcell* v, int o) { struct n_accessor a; n
 #define TR_compare_trivial_key(kc, k, h) TRP(compare_trivial_key)(&(kc), (k), (h))
 #define TR_compare_nontrivial_key(acc, k) TRP(compare_nontrivial_key)(&(acc), (k))
 #define TR_acquire(vc, o) TRP(acquire)(&(vc), (o))
-#define TR_rehash(k) TRP(rehash)(k)
+#define TR_rehash(H, k) TRP(rehash)(k)            /* rehash<Hash>(k): Hash{}(k) (TRIVIAL) or the stored hash itself (NONTRIVIAL) */
 #define TR_reset(acc) TRP(reset)(&(acc))
 static accessor xv_acc_any(void) {
   accessor a;
@@ -213,16 +217,37 @@ static void free_stub(extension_item* item);
    non-empty lists (which one depends on hash: unspecified here). */
 _Bool free_stub_bad;
 static void free_stub(extension_item* item) {
-  for (int p = 0; p < POOL; ++p) if (item == POOL_ITEM_C(p)) { item->next = g_eb[p / XV_EIC].head; g_eb[p / XV_EIC].head = POOL_ITEM_C(p); return; }
+  /* the stores are made through the atomic model so that the writer-guarantee monitor sees the recycling of the item */
+  for (int p = 0; p < POOL; ++p) if (item == POOL_ITEM_C(p)) { A_STORE(POOL_ITEM_C(p)->next, g_eb[p / XV_EIC].head, mo_release); A_STORE(g_eb[p / XV_EIC].head, POOL_ITEM_C(p), mo_relaxed); return; }
   free_stub_bad = 1;
 }
 static extension_item* alloc_stub(block_t* b, hash_t h) {
   unsigned pick = nondet_uint();
+  if (b == &g_blk2) {
+    for (unsigned e = 0; e < XV_NEB; ++e) if (e < b->extension_bucket_count && e == pick && g_eb2[e].head) { extension_item* x = g_eb2[e].head; g_eb2[e].head = x->next; return x; }
+    for (unsigned e = 0; e < XV_NEB; ++e) XV_ASSUME(!(e < b->extension_bucket_count && g_eb2[e].head));
+    return 0;
+  }
   for (unsigned e = 0; e < XV_NEB; ++e) if (e < b->extension_bucket_count && e == pick && g_eb[e].head) {
     extension_item* x = g_eb[e].head; g_eb[e].head = x->next; return x; }
   for (unsigned e = 0; e < XV_NEB; ++e) XV_ASSUME(!(e < b->extension_bucket_count && g_eb[e].head));    /* pick was not a non-empty list: then none is */
   return 0;
 }
+
+/* allocate_block(bucket_count) (not under contract: operator new + memset + free-list construction): returns null or a zeroed block with
+   that many buckets and an extension pool whose items are all free; the pool is at least as large as the old one (it doubles with the block) */
+uint32_t in_ebc2; _Bool alloc_block_may_fail; unsigned alloc_block_calls; uint32_t alloc_block_arg;
+static block_t* vhm_allocate_block(struct vhm* self, uint32_t n) {
+  alloc_block_calls++; alloc_block_arg = n;
+  if (alloc_block_may_fail && nondet_bool()) return 0;
+  g_blk2.mask = n - 1; g_blk2.bucket_count = n; g_blk2.extension_bucket_count = in_ebc2; g_blk2.extension_buckets = g_eb2; g_blk2.bkts = g_bk2;
+  for (int b = 0; b < 2 * NB; ++b) { g_bk2[b].state = 0; g_bk2[b].head = 0; for (int i = 0; i < NSLOT; ++i) { g_bk2[b].key[i] = 0; g_bk2[b].value[i] = 0; } }
+  for (int e = 0; e < XV_NEB; ++e) { g_eb2[e].lock = 0; g_eb2[e].head = 0;
+    if ((uint32_t)e < in_ebc2) for (int j = 0; j < XV_EIC; ++j) { POOL2_ITEM_C(e * XV_EIC + j)->next = g_eb2[e].head; g_eb2[e].head = POOL2_ITEM_C(e * XV_EIC + j); } }
+  return &g_blk2;
+}
+unsigned blk_retired_count; block_t* blk_retired;
+#define GB_reclaim(g) do { blk_retired_count++; blk_retired = (g); (g) = 0; } while (0)
 
 /* Factory / Callback template arguments of do_get_or_emplace */
 vval_t in_value; _Bool factory_may_throw; unsigned factory_calls, cb_count; accessor cb_acc; vcell_t* cb_cell;
